@@ -448,11 +448,18 @@ func init() {
 			scenarioDef{name: "same-ik-different-input", prefix: []lx.Op{seed}, threads: [][]lx.Op{
 				{{Kind: "post", Name: "w>a1 ik=k", Postings: []lx.P{p("world", "a", "USD", "1")}, IK: "k"}},
 				{{Kind: "post", Name: "w>a2 ik=k", Postings: []lx.P{p("world", "a", "USD", "2")}, IK: "k"}}}},
+			// a request whose input the write path itself enriches (script metadata merged
+			// with the request's, account metadata parameter, variables): the repeat must still
+			// be recognised as the same input (seeded change C13 let set_tx_meta keys leak into
+			// the caller's metadata map before the idempotency hash was taken)
+			scenarioDef{name: "same-ik-script-with-request-and-script-metadata", prefix: []lx.Op{seed}, threads: [][]lx.Op{
+				{{Kind: "script", Name: "script-meta ik=k", Script: "vars {\n account $d\n}\nsend [USD 1] (\n source = @world\n destination = $d\n)\nset_tx_meta(\"cat\", \"x\")\nset_account_meta($d, \"k\", \"v\")", Vars: map[string]string{"d": "a"}, Meta: map[string]string{"m": "1"}, AccMeta: map[string]map[string]string{"q": {"p": "1"}}, IK: "k"}},
+				{{Kind: "script", Name: "script-meta ik=k", Script: "vars {\n account $d\n}\nsend [USD 1] (\n source = @world\n destination = $d\n)\nset_tx_meta(\"cat\", \"x\")\nset_account_meta($d, \"k\", \"v\")", Vars: map[string]string{"d": "a"}, Meta: map[string]string{"m": "1"}, AccMeta: map[string]map[string]string{"q": {"p": "1"}}, IK: "k"}}}},
 			scenarioDef{name: "sequential-repeat-then-concurrent", prefix: []lx.Op{seed, {Kind: "post", Name: "w>a ik=k", Postings: []lx.P{p("world", "a", "USD", "1")}, IK: "k"}}, threads: [][]lx.Op{
 				{{Kind: "post", Name: "w>a ik=k", Postings: []lx.P{p("world", "a", "USD", "1")}, IK: "k"}},
 				{{Kind: "post", Name: "w>a2 ik=k", Postings: []lx.P{p("world", "a", "USD", "2")}, IK: "k"}}}},
 		),
-		rule: "7 scenarios sharing an idempotency key (same create; same spend with funds for only one; same revert; same delete-metadata; three same account-metadata writes; different inputs; a key already used then repeated and reused concurrently); every schedule with <= bound preemptions (thorough: all), the unique index logs(ledger, idempotency_key) and forgeLog's retry deciding the outcome; oracle: at most one request applied per key, every other caller gets the original log flagged as a hit or an explicit conflict/retryable error, never a business error contradicting the committed outcome; a different input never succeeds; final state == replay of the applied requests",
+		rule: "8 scenarios sharing an idempotency key (same create; same spend with funds for only one; same revert; same delete-metadata; three same account-metadata writes; different inputs; the same script with variables, request metadata, script metadata and an account-metadata parameter; a key already used then repeated and reused concurrently); every schedule with <= bound preemptions (thorough: all), the unique index logs(ledger, idempotency_key) and forgeLog's retry deciding the outcome; oracle: at most one request applied per key, every other caller gets the original log flagged as a hit or an explicit conflict/retryable error, never a business error contradicting the committed outcome; a different input never succeeds; final state == replay of the applied requests",
 	}, reg.Register)
 }
 
